@@ -218,9 +218,10 @@ def gen_boundary(rng, size, layout, variant):
     if small <= n <= 257:
         g.ops.append("alloc %d" % n)
         if sim.alloc(n) is None:
-            # nothing may be handed out; if something is, commit a PDU that fills it
-            g.ops += ["w 0 %s" % hexb(pdu_bytes(rng, o, n - 2 - o)), "push", "st", "peek", "more"]
-            g.ops += ["pop", "peek", "more"] * (len(sim.fifo) + 1) + ["st"]
+            # nothing may be handed out; if something is, commit a PDU that fills it (only the header
+            # is written: on a correct ring these operations hit the stale previous region and are
+            # outside the discipline, they are kept few and short)
+            g.ops += ["w 0 %s" % hexb([rng.randrange(256), n - 2 - o]), "push", "st", "peek", "more"]
             return g.ops
     g.consume(len(sim.fifo))
     g.ops += ["peek", "more", "st", "alloc %d" % small, "alloc %d" % half, "alloc %d" % (size - 1), "alloc %d" % size, "alloc %d" % (size + 1)]
